@@ -94,6 +94,12 @@ class LazyCall:
     def batch(self, batch, axis=0):
         return self.as_dataset(batch)
 
+    def _extra_batches(self):
+        # no extra item: one empty dict for every batch of x, however many
+        if not self.extra:
+            return itertools.repeat({})
+        return split_generator(self.extra, self.batch_size)
+
     def __iter__(self):
         assert self.batch_size is not None, ""
         if (
@@ -102,18 +108,16 @@ class LazyCall:
         ):
             for i, j in zip(
                 self.cached_batch[self.batch_size],
-                split_generator(self.extra, self.batch_size),
+                self._extra_batches(),
             ):
                 yield {**i, **j}
         elif isinstance(self.x, LazyCall):
-            for i, j in zip(
-                self.x, split_generator(self.extra, self.batch_size)
-            ):
+            for i, j in zip(self.x, self._extra_batches()):
                 yield {**self.f(i, *self.args, **self.kwargs), **j}
         else:
             for i, j in zip(
                 split_generator(self.x, self.batch_size),
-                split_generator(self.extra, self.batch_size),
+                self._extra_batches(),
             ):
                 yield {**self.f(i, *self.args, **self.kwargs), **j}
 
